@@ -1,7 +1,7 @@
 """Which engine units decide which property.  Keys are property ids of /verif/properties.jsonl."""
 PROPS = {
     "C01": {
-        "vx": ["simplify_rules", "context"],
+        "vx": ["simplify_rules", "context", "driver"],
         "ax": True,
         "level": "proof",
     },
